@@ -54,8 +54,25 @@ pub fn dispatch(prop: &str, ctx: Ctx, replay: Option<&str>) -> i32 {
 
 fn dispatch_inner(prop: &str, ctx: Ctx, replay: Option<&str>) -> i32 {
     let started = Instant::now();
+    // a witness of a kind that has no single-case replay is replayed by running the check again with the tier
+    // and seed recorded in the witness (case generation is a function of the seed)
+    let mut ctx = ctx;
     if let Some(path) = replay {
-        return replay_file(prop, path);
+        match replay_file(prop, path) {
+            REPLAY_WHOLE_CHECK => {
+                let v: serde_json::Value = std::fs::read_to_string(path).ok().and_then(|t| serde_json::from_str(&t).ok()).unwrap_or_default();
+                if let Some(seed) = v.get("seed").and_then(|x| x.as_u64()) {
+                    ctx.seed = seed;
+                }
+                if v.get("tier").and_then(|x| x.as_str()) == Some("thorough") {
+                    ctx.tier = crate::report::Tier::Thorough;
+                } else if v.get("tier").and_then(|x| x.as_str()) == Some("quick") {
+                    ctx.tier = crate::report::Tier::Quick;
+                }
+                println!("replay: no single-case replay for this kind of witness; running {prop} {} with seed {} as recorded in {path}", ctx.tier.name(), ctx.seed);
+            }
+            code => return code,
+        }
     }
     match prop {
         "C01" => {
@@ -244,12 +261,12 @@ pub fn replay_file(prop: &str, path: &str) -> i32 {
             }
             if o.problems.is_empty() { 0 } else { 1 }
         }
-        _ => {
-            eprintln!("replay not supported for this case kind");
-            2
-        }
+        _ => REPLAY_WHOLE_CHECK,
     }
 }
+
+/// returned by `replay_file` when the witness has no single-case replay
+const REPLAY_WHOLE_CHECK: i32 = -77;
 
 /// Secondary oracle of the thorough tier: replay the reduced workload under Miri (undefined behaviour
 /// in the bytes split/advance/reserve paths the decoder leans on). A Miri error report is a violation;
